@@ -25,7 +25,8 @@ def scenarios(tier):
         out = [Scenario("c15-programs", World, cfg, program + hooks[:1] + ends, max_states=cap,
                         note="programs ending inside/outside an episode with deferred codes, Z changes, owed recoveries"),
                Scenario("c15-hook-sequences", World, dict(cfg, enter="M300 S1\n"),
-                        [("TRAVEL", "I1"), ("TRAVEL", "O2"), ("PRINT", "I2"), ("RAW", "M117 x"), ("RAW", "G28 X")]
+                        [("TRAVEL", "I1"), ("TRAVEL", "O2"), ("PRINT", "I2"), ("RAW", "M117 x"), ("RAW", "G28 X"), ("RAW", "M84"),
+                         ("RAW", "M104 S0")]
                         + hooks + ends, max_states=cap,
                         note="all sequences of script-hook invocations (near-miss script names, other types), a partial "
                              "homing inside the episode, end events")]
